@@ -63,7 +63,15 @@ def run(ctx):
                     kwf = dict(kw)
                     if rng.random() < 0.3:
                         kwf["use_pruning"] = True
-                    dtw_ndim.distance_fast(s1, s2, **kwf)
+                    f1_, f2_ = s1, s2
+                    if nd >= 2 and rng.random() < 0.35:
+                        # column-major series (the .T view of a channels x time recording): same numbers, other layout
+                        lay_ = rng.choice(["F", "Tview"])
+                        f1_ = np.asfortranarray(s1) if lay_ == "F" else np.ascontiguousarray(s1.T).T
+                        if rng.random() < 0.7:
+                            f2_ = np.asfortranarray(s2) if lay_ == "F" else np.ascontiguousarray(s2.T).T
+                        ctx.count("fast_route_column_major_series")
+                    dtw_ndim.distance_fast(f1_, f2_, **kwf)
                 elif route == "flat":
                     # the same series handed over as one flat buffer each (row-major points)
                     dtw_cc.distance_ndim_assinglearray(s1.reshape(-1).copy(), s2.reshape(-1).copy(), nd,
@@ -103,7 +111,11 @@ def run(ctx):
         if rng.random() < 0.3:
             kw4["use_pruning"] = True        # the multivariate bound inside the cost-matrix kernels
         with monitors.quiet():
-            C04.one(ctx, dtw, dtw_cc, np, s1, s2, kw4, psi_neg=rng.random() < 0.5, keep=rng.random() < 0.3, nd=nd)
+            m1_, m2_ = s1, s2
+            if nd >= 2 and rng.random() < 0.25:
+                m1_, m2_ = np.asfortranarray(s1), np.ascontiguousarray(s2.T).T
+                ctx.count("matrix_route_column_major_series")
+            C04.one(ctx, dtw, dtw_cc, np, m1_, m2_, kw4, psi_neg=rng.random() < 0.5, keep=rng.random() < 0.3, nd=nd)
             C05.one(ctx, mods, np, s1, s2, kw2, nd)
         # d = 1 reduction
         if nd == 1:
